@@ -61,6 +61,7 @@ def check(rep: Report, ctx: Ctx) -> None:
     r515(rep, ctx)
     r516(rep, ctx)
     r517(rep, ctx)
+    r518(rep, ctx)
 
 
 # --------------------------------------------------------------------------
@@ -1282,3 +1283,13 @@ def r517(rep: Report, ctx: Ctx) -> None:
            args=(f"(*{D}.event_types,PUMLEvent.BREAK)",),
            alt_args=[(f"(*{IN}.event_types,PUMLEvent.BREAK)",)],
            must=[simple])
+
+
+def r518(rep: Report, ctx: Ctx) -> None:
+    """Table-driven (walkspec.PUML_TABLE): how a diagram node is created,
+    what its activity line is, and the sinks of the dummy start / end."""
+    from .effspec import check_table
+    from .walkspec import PUML_TABLE
+    rep.rule("R5.18", "diagram nodes: creation, registration, the activity "
+             "line, loop body framing, dummy start / end removal", 15)
+    check_table(rep, ctx, "R5.18", PUML_TABLE, list(PUML_TABLE))
